@@ -228,6 +228,14 @@ def run(ctx):
         if ok:
             rng = strip_sym(Sym(rr[0].fn).operand(rr[0].args[1]))
             ok = rng[0] == "agg" and (rng[5] or "").endswith("ops::range::Range") and const_int(rng[3][0]) == 0 and "capture" in repr(rng[3][1]) or (rng[0] == "agg" and const_int(rng[3][0]) == 0 and is_param(strip_sym(rng[3][1]), 0))
+        if ok:
+            # ... drawn from the thread's generator itself, so that its state advances: a copy of the generator yields the same
+            # raw word on every call and the accepted positions are the same every time
+            recv_ = Sym(rr[0].fn).operand(rr[0].args[0])
+            copied = [x for x in sym_walk(recv_) if isinstance(x, tuple) and x and x[0] == "call" and isinstance(x[1], str) and strip_generics(x[1]).split("::")[-1] in ("clone", "cloned", "to_owned", "copied")]
+            if copied:
+                ok = False
+                chk.ob("C16.a", f"{fr_f.path} [generator advanced]", False, "the draw is made from a clone of the thread-local generator: its state never advances, so every push on a thread sees the same raw random word and retention depends on stream position", rr[0].loc(), nontrivial=False)
         chk.ob("C16.a", fr_f.path, ok, "fastrand(upper) = rng.random_range(0..upper)" if ok else "fastrand does not draw uniformly from 0..upper", fr_f.loc())
     drain = one_method(chk, "C16.b", u, RES, "drain")
     if drain:
